@@ -15,7 +15,7 @@ LEVEL = "exploration"
 TECHNIQUE = "metamorphic relation between paired simulations of one physical problem stated in two unit systems (explicit conversion table in the harness), plus an absolute flux-quantum identity per mesh triangle from SI constants"
 RULE = (
     "case = generated device/drive/options stated in unit system A drawn from {um,nm,mm}x{mT,uT,T}x{uA,nA,mA}, converted by the harness to "
-    "a second drawn system B (same dimensionless mesh shared), both solved and compared frame by frame; non-trivial = all three units differ "
+    "a second drawn system B (same dimensionless mesh shared), both solved (the second optionally reusing the first SolverOptions object with its unit fields changed in place) and compared frame by frame, together with field_at_position / vector_potential_at_position in SI units read from both finished solutions; non-trivial = all three units differ "
     "and both field and current are non-zero; distinct by spec hash"
 )
 ASSUMPTIONS = [
@@ -87,7 +87,8 @@ def _case(draw, tier):
         xi = dev["layer"]["xi"]
         c = dev["film"].get("center") or dev["film"]["parts"][0]["center"]
         eps = dict(kind="callable", x0=c[0] + 0.3 * xi, y0=c[1] - 0.2 * xi, radius=1.2 * xi, lo=draw(gen.rf(-0.5, 0.5)))
-    return dict(device=dev, units_a=ua, units_b=ub, field=fld, currents=cur, epsilon=eps,
+    # the second statement of the problem may reuse the first one's SolverOptions object with its unit fields changed in place
+    return dict(device=dev, units_a=ua, units_b=ub, field=fld, currents=cur, epsilon=eps, reuse_options=draw(st.booleans()),
                 options=dict(dt_c=draw(gen.rf(0.05, 0.4)), dtmax_c=0.45, adaptive=draw(st.booleans()), adaptive_window=draw(st.integers(1, 5)),
                              include_screening=scr, screening_tolerance=1e-4,
                              nsteps=draw(st.integers(5, 20 if tier == "quick" else 60)), save_every=draw(st.integers(1, 6)),
@@ -98,18 +99,30 @@ def strategy(tier):
     return _case(tier)
 
 
-def _solve(dev, spec, units, fld, cur, eps):
-    with sim.workdir():
-        opts = build.make_options(dict(spec["options"], field_units=units[1], current_units=units[2]), dev, output_file="out.h5")
-        solver = build.make_solver(dev, opts, applied_vector_potential=build.make_vector_potential(fld, dev, units[1]),
-                                   terminal_currents=build.make_currents(cur, opts.solve_time), disorder_epsilon=build.make_epsilon(eps))
-        sol = solver.solve()
-        frames, fixed = sim.read_frames(sol.path)
-        K = []
-        for j in range(len(frames)):
-            sol.solve_step = j
-            K.append(np.array(sol.current_density.to("uA / um").magnitude))
-    return frames, fixed, K, float(opts.dt_init)
+def _solve(dev, spec, units, fld, cur, eps, opts=None, name="out.h5"):
+    """Solve in the current work directory; with ``opts`` given, that SolverOptions object is reused, its unit fields changed in place."""
+    import os
+
+    if opts is None:
+        opts = build.make_options(dict(spec["options"], field_units=units[1], current_units=units[2]), dev, output_file=os.path.abspath(name))
+    else:
+        opts.field_units, opts.current_units, opts.output_file = units[1], units[2], os.path.abspath(name)
+    solver = build.make_solver(dev, opts, applied_vector_potential=build.make_vector_potential(fld, dev, units[1], opts.solve_time),
+                               terminal_currents=build.make_currents(cur, opts.solve_time), disorder_epsilon=build.make_epsilon(eps))
+    return solver.solve(), opts
+
+
+def _measure(sol, pos, z):
+    """What is read from a finished solution: frames, physical sheet current per frame, and (last frame) the field and the
+    vector potential at positions given in the solution's own length units, in SI units."""
+    frames, fixed = sim.read_frames(sol.path)
+    K = []
+    for j in range(len(frames)):
+        sol.solve_step = j
+        K.append(np.array(sol.current_density.to("uA / um").magnitude))
+    Bz = np.asarray(sol.field_at_position(pos, zs=z, units="T", with_units=False), dtype=float)
+    Av = np.asarray(sol.vector_potential_at_position(pos, zs=z, units="T * m", with_units=False), dtype=float)
+    return frames, fixed, K, Bz, Av
 
 
 def check_case(spec):
@@ -154,9 +167,22 @@ def check_case(spec):
                 res.fail("C08.physical_scales", f"Device.{k} = {got[k]:.9g} SI in units {dspec_['lu']}, definition from Phi_0, mu_0 gives {si[k]:.9g}")
     if res.violations:
         return res
+    # evaluation points above the film, given in each system's own length units
+    fpts = build.make_polygon(da["film"], "film").points
+    lo, hi = fpts.min(axis=0), fpts.max(axis=0)
+    gx, gy = np.meshgrid(np.linspace(lo[0], hi[0], 4), np.linspace(lo[1], hi[1], 3), indexing="ij")
+    pos_a = np.stack([gx.ravel(), gy.ravel()], axis=1)
+    z_a = float(da["layer"].get("z0", 0.0)) + 1.5 * float(da["layer"]["xi"])
+    reuse = bool(spec.get("reuse_options"))
+    if reuse:
+        res.label("second run reuses the SolverOptions object (units changed in place)")
     try:
-        fr_a, fx_a, K_a, dt_a = _solve(dev_a, spec, ua, fa, ca, ea)
-        fr_b, fx_b, K_b, dt_b = _solve(dev_b, spec, ub, fb, cb, eb)
+        with sim.workdir():
+            sol_a, opts_a = _solve(dev_a, spec, ua, fa, ca, ea, name="a.h5")
+            sol_b, _ = _solve(dev_b, spec, ub, fb, cb, eb, opts=opts_a if reuse else None, name="b.h5")
+            # both finished solutions are read only now
+            fr_a, fx_a, K_a, Bz_a, Av_a = _measure(sol_a, pos_a, z_a)
+            fr_b, fx_b, K_b, Bz_b, Av_b = _measure(sol_b, pos_a * s, z_a * s)
     except RuntimeError as exc:
         if "converge" in str(exc):
             res.label("documented non-convergence")
@@ -186,6 +212,14 @@ def check_case(spec):
         if bad:
             res.fail("C08.unit_dependence", f"step {int(a['attrs']['step'])}: results differ between {ua} and {ub}: {bad}")
             break
+    # ---- physical outputs computed from the solutions (SI): field and vector potential above the film
+    if not res.violations:
+        for name, xa, xb in (("field_at_position [T]", Bz_a, Bz_b), ("vector_potential_at_position [T m]", Av_a, Av_b)):
+            scale = float(np.max(np.abs(xa))) + 1e-300
+            err = float(np.max(np.abs(xa - xb))) / scale
+            res.stat("physical_output", err if scale > 1e-30 else 0.0)
+            if scale > 1e-30 and err > 1e-6:
+                res.fail("C08.physical_outputs", f"{name} of the last frame differs between {ua} and {ub} by {err:.3e} relative (max |value| {scale:.3e})")
     # ---- absolute identity: gauge phase around every triangle = 2 pi * flux / Phi_0
     if fa["kind"] in ("constant", "float", "gauge_param"):
         for fixed, dspec, units, f_ in ((fx_a, da, ua, fa), (fx_b, db, ub, fb)):
